@@ -69,6 +69,21 @@ fn check_int<T: std::fmt::Display + Copy>(ty: &str, n: T, conv: impl FnOnce(T) -
 
 fn float_bits_f64() -> Vec<f64> {
     let mut v = vec![0.0, -0.0, f64::NAN, f64::INFINITY, f64::NEG_INFINITY, f64::MIN_POSITIVE, f64::MAX, f64::MIN, f64::EPSILON, 5e-324, 0.1, 0.2, 0.3, 1.1, 1e40, -1e40, 7.9e28, 7.93e28, 1e28, 123456.789];
+    // whole numbers: 2^k and its exactly representable neighbours, powers of ten
+    for k in 0..96 {
+        for dlt in [-1i128, 0, 1] {
+            let n = (1i128 << k) + dlt;
+            if (n as f64) as i128 == n {
+                v.push(n as f64);
+                v.push(-(n as f64));
+            }
+        }
+    }
+    let mut p = 1f64;
+    for _ in 0..22 {
+        v.extend([p, -p, p * 3.0, p * 7.0]);
+        p *= 10.0;
+    }
     let mantissas: [u64; 16] = [0, 1, 0x8000000000000, 0xFFFFFFFFFFFFF, 0x5555555555555, 0xAAAAAAAAAAAAA, 0x999999999999A, 0x3333333333333, 0x1, 0x10, 0x100000, 0xF0F0F0F0F0F0F, 0x123456789ABCD, 0xFFFFFFFFFFFFE, 0x8000000000001, 0x4000000000000];
     for e in 0..2047u64 {
         for m in mantissas {
@@ -82,6 +97,15 @@ fn float_bits_f64() -> Vec<f64> {
 
 fn float_bits_f32() -> Vec<f32> {
     let mut v = vec![0.0f32, -0.0, f32::NAN, f32::INFINITY, f32::NEG_INFINITY, f32::MIN_POSITIVE, f32::MAX, f32::MIN, 0.1, 0.2, 1.1, 1e30, -1e30, 7.9e28];
+    for k in 0..96 {
+        for dlt in [-1i128, 0, 1] {
+            let n = (1i128 << k) + dlt;
+            if (n as f32) as i128 == n {
+                v.push(n as f32);
+                v.push(-(n as f32));
+            }
+        }
+    }
     let mantissas: [u32; 12] = [0, 1, 0x400000, 0x7FFFFF, 0x555555, 0x2AAAAA, 0x4CCCCD, 0x199999, 0x10, 0x7FFFFE, 0x400001, 0x123456];
     for e in 0..255u32 {
         for m in mantissas {
@@ -128,6 +152,18 @@ fn check_float(ty: &str, x: f64, v: Res<Value>, out: &mut WorkerOut) {
         out.count("skipped_below_resolution", 1);
         if back.abs() > 1e-27 {
             out.fail(format!("from:{}:tiny-became-large", ty), case, format!("Value::from({:e}) denotes {}", x, d));
+        }
+        return;
+    }
+    // a float that is a whole number within 96 bits is exactly an integer: that integer it must be
+    if x.fract() == 0.0 && x.abs() < 7.9e28 {
+        let want = format!("{}", x as i128);
+        let got = d.normalize().to_string();
+        if got == want || (want == "0" && (got == "0" || got == "-0")) {
+            out.outcomes.insert("float-whole-exact".into());
+            out.count("validated", 1);
+        } else {
+            out.fail(format!("from:{}:whole-number-changed", ty), case, format!("Value::from({:e}) is the integer {} but denotes {}", x, want, d));
         }
         return;
     }
